@@ -291,6 +291,47 @@ theorem lsfCore_point (k0 rsq E : ℝ) (hr : rsq ≠ 0) :
   field_simp
   ring
 
+/-- the second-order point scale factor at easting `E` from the central meridian, `k₀(1 + E²/(2r²))` -/
+def psf2 (k0 rsq E : ℝ) : ℝ := k0 * (1 + E ^ 2 / (2 * rsq))
+
+/-- **Simpson**: the line scale factor is Simpson's mean `(k₁ + 4k_m + k₂)/6` of the second-order point scale factors at the two
+ends and at the mean easting, plus the fourth-order term `k₀Q²/(216 r⁴)`, `Q = E₁² + E₁E₂ + E₂²` -/
+theorem lsfCore_simpson (k0 rsq E1 E2 : ℝ) (hr : rsq ≠ 0) :
+    lsfCore k0 rsq E1 E2 =
+      (psf2 k0 rsq E1 + 4 * psf2 k0 rsq ((E1 + E2) / 2) + psf2 k0 rsq E2) / 6
+        + k0 * (E1 ^ 2 + E1 * E2 + E2 ^ 2) ^ 2 / (216 * rsq ^ 2) := by
+  unfold lsfCore psf2
+  field_simp
+  ring
+
+theorem Q_le (E1 E2 M : ℝ) (h1 : |E1| ≤ M) (h2 : |E2| ≤ M) : E1 ^ 2 + E1 * E2 + E2 ^ 2 ≤ 3 * M ^ 2 := by
+  have hM : 0 ≤ M := le_trans (abs_nonneg _) h1
+  have a1 : E1 ^ 2 ≤ M ^ 2 := by rw [← sq_abs E1]; exact pow_le_pow_left₀ (abs_nonneg _) h1 2
+  have a2 : E2 ^ 2 ≤ M ^ 2 := by rw [← sq_abs E2]; exact pow_le_pow_left₀ (abs_nonneg _) h2 2
+  have a3 : E1 * E2 ≤ M ^ 2 := by nlinarith [sq_nonneg (E1 - E2)]
+  linarith
+
+/-- … so it lies between that Simpson mean and the mean plus `k₀M⁴/(24 r⁴)` when both eastings are within `M` of the central
+meridian (`M = 340 km`, `r ≈ 6.37·10⁶ m`: below 4·10⁻⁷, the size of the tolerance the property states) -/
+theorem lsfCore_between_simpson (k0 rsq E1 E2 M : ℝ) (hk : 0 ≤ k0) (hr : 0 < rsq) (h1 : |E1| ≤ M) (h2 : |E2| ≤ M) :
+    (psf2 k0 rsq E1 + 4 * psf2 k0 rsq ((E1 + E2) / 2) + psf2 k0 rsq E2) / 6 ≤ lsfCore k0 rsq E1 E2 ∧
+    lsfCore k0 rsq E1 E2 ≤
+      (psf2 k0 rsq E1 + 4 * psf2 k0 rsq ((E1 + E2) / 2) + psf2 k0 rsq E2) / 6 + k0 * M ^ 4 / (24 * rsq ^ 2) := by
+  rw [lsfCore_simpson k0 rsq E1 E2 hr.ne']
+  have hQ0 := Q_nonneg E1 E2
+  have hQ := Q_le E1 E2 M h1 h2
+  have hsq : (E1 ^ 2 + E1 * E2 + E2 ^ 2) ^ 2 ≤ (3 * M ^ 2) ^ 2 := pow_le_pow_left₀ hQ0 hQ 2
+  have hr2 : 0 < 216 * rsq ^ 2 := by positivity
+  constructor
+  · have : 0 ≤ k0 * (E1 ^ 2 + E1 * E2 + E2 ^ 2) ^ 2 / (216 * rsq ^ 2) := by positivity
+    linarith
+  · have h3 : k0 * (E1 ^ 2 + E1 * E2 + E2 ^ 2) ^ 2 / (216 * rsq ^ 2) ≤ k0 * (3 * M ^ 2) ^ 2 / (216 * rsq ^ 2) := by
+      apply div_le_div_of_nonneg_right _ hr2.le
+      exact mul_le_mul_of_nonneg_left hsq hk
+    have h4 : k0 * (3 * M ^ 2) ^ 2 / (216 * rsq ^ 2) = k0 * M ^ 4 / (24 * rsq ^ 2) := by
+      field_simp; ring
+    linarith
+
 /-! ### the same facts about the generated `line_sf` -/
 
 /-- `line_sf_formula` in terms of `lsfCore`/`rSq` -/
@@ -373,6 +414,23 @@ theorem line_sf_ge_k0 (zone east1 north1 east2 north2 : ℝ) (hemi : String) (el
     ∃ k, line_sf zone east1 north1 zone east2 north2 hemi ell prj = .ok k ∧ prj.cmscale ≤ k :=
   ⟨_, line_sf_ok _ _ _ _ _ _ _ _ g1 g2 h1 h2,
     lsfCore_ge_k0 _ _ _ _ hk.le (rSq_pos _ ell prj ha he0 he1 hk.ne')⟩
+
+/-- **line_sf_simpson**: the generated `line_sf` returns Simpson's mean of the second-order point scale factors (ends and mean
+easting, radius at the mean latitude) plus a non-negative fourth-order term bounded by `k₀M⁴/(24 r⁴)` -/
+theorem line_sf_simpson (zone east1 north1 east2 north2 M : ℝ) (hemi : String) (ell : Ellipsoid)
+    (prj : Projection) (g1 g2 : Geo)
+    (h1 : grid2geo zone east1 north1 hemi ell utm = .ok g1)
+    (h2 : grid2geo zone east2 north2 hemi ell utm = .ok g2)
+    (ha : 0 < ell.semimaj) (he0 : 0 ≤ ell.ecc1sq) (he1 : ell.ecc1sq < 1) (hk : 0 < prj.cmscale)
+    (hE1 : |east1 - prj.falseeast| ≤ M) (hE2 : |east2 - prj.falseeast| ≤ M) :
+    ∃ k, line_sf zone east1 north1 zone east2 north2 hemi ell prj = .ok k ∧
+      let r2 := rSq ((g1.1 + g2.1) / 2) ell prj
+      let simpson := (psf2 prj.cmscale r2 (east1 - prj.falseeast)
+        + 4 * psf2 prj.cmscale r2 (((east1 - prj.falseeast) + (east2 - prj.falseeast)) / 2)
+        + psf2 prj.cmscale r2 (east2 - prj.falseeast)) / 6
+      simpson ≤ k ∧ k ≤ simpson + prj.cmscale * M ^ 4 / (24 * r2 ^ 2) :=
+  ⟨_, line_sf_ok _ _ _ _ _ _ _ _ g1 g2 h1 h2,
+    lsfCore_between_simpson _ _ _ _ M hk.le (rSq_pos _ ell prj ha he0 he1 hk.ne') hE1 hE2⟩
 
 /-- **line_sf_point**: for equal eastings (`E₁ = E₂ = E`) the line scale factor is the point-scale
 series `k₀(1 + E²/(2r²) + E⁴/(24r⁴))` at the mean latitude -/
